@@ -34,7 +34,10 @@ delimiters and non-numeric fields surface there); no handler swallows the
 error; load_transform returns only matrices that passed the shape and is_sim3
 test; the JSON loader checks key presence before reading and takes every
 field from the file as it is (no truthiness default). C07.6: the guard
-constant equals the layout width used by the slices.
+constant equals the layout width used by the slices. C07.7: the validity test
+load_transform relies on (is_sim3 / is_so3 / sim3_scale) is the conjunction of
+all necessary conditions and does not let reflections through (instances of
+C09.3).
 """
 UNDECIDED = [
     "that the vendored quaternion_matrix implements the Hamilton convention "
@@ -62,7 +65,7 @@ MANIFEST = dict(
               "inventory + sibling-branch comparison",
 )
 FLOORS = {"C07.1": 10, "C07.2": 4, "C07.3": 3, "C07.4": 4, "C07.5": 12,
-          "C07.6": 3}
+          "C07.6": 3, "C07.7": 5}
 
 FI = "evo.tools.file_interface."
 TUM = ("t", "x", "y", "z", "qx", "qy", "qz", "qw")
@@ -332,6 +335,9 @@ def check(ctx):
 
     from .. import vendored
     vendored.check(ctx, "C07.1", ("quaternion_matrix",))
+    from ..core import import_rules
+    n = import_rules(ctx, "c09", ("C09.3",), "C07.7")
+    ctx.require(n >= 5, "C07.7: membership-test instances not found")
     _writers(ctx, prog)
     _csv(ctx, prog)
     _transform(ctx, prog)
